@@ -242,6 +242,42 @@ func TestVerifC06Route(t *testing.T) {
 				}
 				vSettle(10 * time.Millisecond)
 			}
+			// ---- sustained fanout publishing: while the node keeps publishing to a topic it has not joined, the fanout
+			// set must survive every heartbeat (its time-to-live counts from the last publication, not from its creation)
+			// and keep the members that stay eligible. No other operation runs meanwhile.
+			if router == "gossipsub" && mySubs["t"] == nil && c.Chance(0.35) {
+				fillerN++
+				topicOf("t").Publish(context.Background(), []byte(fmt.Sprintf("filler-%d", fillerN)))
+				vSettle(10 * time.Millisecond)
+				F0 := nd.Snap().Fanout["t"]
+				if len(F0) > 0 {
+					rounds := int(params.FanoutTTL/r.hb) + c.Range(2, 5)
+					note("sustained fanout publishing for %d heartbeats (FanoutTTL %v)", rounds, params.FanoutTTL)
+					for k := 0; k < rounds; k++ {
+						r.ToNextGap(time.Duration(c.Range(50, 400)) * time.Millisecond)
+						Sk := nd.Snap()
+						for p := range F0 {
+							_, d := Sk.Direct[p]
+							_, inT := Sk.Topics["t"][p]
+							_, conn := Sk.Peers[p]
+							sc := 0.0
+							if scoring {
+								sc = app.Get(p)
+							}
+							if _, ok := Sk.Fanout["t"][p]; !ok && inT && conn && !d && sc >= pubTh {
+								c.Violatef(map[string]string{"kind": "fanout_unstable", "when": "sustained_publishing"},
+									"fanout member %s was dropped after %d heartbeats of continuous publishing (FanoutTTL %v) although still eligible; fanout now %v\n history=%v",
+									r.Name(p), k+1, params.FanoutTTL, vPeerNames(r.n, Sk.Fanout["t"]), hist)
+								return
+							}
+						}
+						fillerN++
+						topicOf("t").Publish(context.Background(), []byte(fmt.Sprintf("filler-%d", fillerN)))
+						vSettle(10 * time.Millisecond)
+					}
+					c.Count("sustained_fanout_rounds", rounds)
+				}
+			}
 			// ---- the injection, strictly between two heartbeats
 			r.ToNextGap(time.Duration(c.Range(50, 600)) * time.Millisecond)
 			tn := "t"
@@ -254,6 +290,16 @@ func TestVerifC06Route(t *testing.T) {
 			mode := []string{"local", "local", "localonly", "remote", "remote"}[c.Intn(5)]
 			if mode == "remote" && (len(att) < 2 || mySubs[tn] == nil) {
 				mode = "local"
+			}
+			if scoring && c.Chance(0.4) {
+				// a direct peer is exempt from the publish threshold: put one below it
+				for _, p := range att {
+					if p.direct {
+						app.Set(p.p.ID(), pubTh-float64(c.Range(1, 3)))
+						note("score(%s) below the publish threshold (direct peer)", p.p.name)
+						break
+					}
+				}
 			}
 			S := nd.Snap()
 			marks := make([]int, len(pups))
